@@ -101,6 +101,12 @@ def handleDet (st : St) (fid det impl : String) : Verdict :=
             (match dbmOracleOn f.tree locs with | none => ("ok", "") | some w => ("VIOL", w))
           else if det == "unprotected_selfdestruct_vulnerability" then
             (match selfdestructOracleOn f.tree locs with | none => ("ok", "") | some w => ("VIOL", w))
+          else if versionGated.contains det then
+            (match expectedVersionGated det f.tree with
+             | some e =>
+               let want := canonLocs e
+               if want == locs then ("ok", "") else ("VIOL", s!"expected {fmtLocs want}")
+             | none => ("na", "not a single full version"))
           else
             match expectedSetOf det with
             | some e =>
